@@ -386,5 +386,5 @@ func linProperty(t *testing.T, st *structure, quickN, thoroughN, reps int) {
 
 // Tier sizes of part (a): programs per structure and repetitions per program.
 func linPrograms() int         { return 2000 }
-func linProgramsThorough() int { return 40000 }
+func linProgramsThorough() int { return 60000 }
 func linReps() int             { return vk.Pick(60, 100) }
